@@ -66,3 +66,10 @@ Proof. induction sched as [| t r IH]; intros x x' HX H; cbn [xreplay] in H.
     + intros h L Em Et. subst t. unfold at_put in G. rewrite Em in G. discriminate.
     + exact OK.
     + subst t. unfold at_put in G. rewrite Em in G. discriminate. Qed.
+
+(* the set of dead producers may change whenever unblock is not in the middle of its scan *)
+Lemma xinv_dead_change lo d1 d2 x : XInv lo d1 x ->
+  match a_mode (ag_agent x) with AUnblocking (UScan _ _ _) | AUnblocking (UBack _ _ _) | AUnblocking (UPut _ _) => False | _ => True end ->
+  XInv lo d2 x.
+Proof. intros (HI & HA) Hm. split; [exact HI |]. unfold agent_ok in *.
+  destruct (a_mode (ag_agent x)) as [| | cs | u]; auto. destruct u; try contradiction; exact HA. Qed.
